@@ -37,12 +37,17 @@
       second use; a function that needs no pool), every choice of hasher.
     * Emit = TRUE, Source = "file": the catalogue of the REAL entry points
       (catalogue.ndjson, written by the harness: name, pools used, whether the
-      call aborts, in which use, nested or not).  TLC enumerates every history of at most
-      MaxLen calls that contains an aborted call and ends in a completed one
-      (all others are prefixes or cannot show a difference) and prints it; the
-      harness replays each on the real code and compares EVERY completed call
-      with the hash of the pre-image (Semantics!Value, SemanticsTrace) and
-      with the value the same call returns in a fresh process.              *)
+      call aborts, in which use, nested or not).  TLC enumerates every history
+      of MaxLen calls that contains an aborted call before its last call and
+      ends in a completed one (shorter ones are prefixes, the others cannot
+      show a difference) and prints it (SemanticsPureGen.cfg: 3 calls by 2
+      goroutines; SemanticsPureGenDeep.cfg: 4 calls by 1); -simulate with
+      SemanticsPureSim.cfg prints random histories of 8 calls by 3 goroutines.
+      The harness replays each history on the real code and compares EVERY
+      completed call with the value the same call returns in a fresh process
+      and that with the hash of the pre-image (Semantics!Value, SemanticsTrace).
+      The pools named in the catalogue are the sharing core has today; the
+      replay does not use them: it demands the values whatever is shared.   *)
 EXTENDS Integers, Sequences, FiniteSets, Bags, TLC, Json
 
 CONSTANTS Source,      \* "small" | "file"
@@ -86,13 +91,13 @@ vars == <<pool, n, hist, pure>>
 Put(pl, p, b) == [pl EXCEPT ![p] = @ (+) SetToBag({b})]
 Take(pl, p, b) == [pl EXCEPT ![p] = @ (-) SetToBag({b})]
 
-\* all outcomes [pool, pure] of the uses u.. of call o, started with pools pl; held: the buffers of the hashers the
-\* call still holds (a NESTED call borrows for use u + 1 while use u is unfinished: an address of a threshold policy
-\* computes the addresses of its sub-policies in the middle of its own hashing); on a panic all are given back
 \* the hashers a use may get: any resting one or a new one.  When histories are emitted the choice is not enumerated
 \* (it cannot be replayed, and View tells histories apart by the calls alone): a resting hasher if there is one
 Choices(pl, p) == IF ~Emit THEN BagToSet(pl[p]) \cup {Clean}
                   ELSE IF BagToSet(pl[p]) = {} THEN {Clean} ELSE {CHOOSE b \in BagToSet(pl[p]) : TRUE}
+\* all outcomes [pool, pure] of the uses u.. of call o, started with pools pl; held: the buffers of the hashers the
+\* call still holds (a NESTED call borrows for use u + 1 while use u is unfinished: an address of a threshold policy
+\* computes the addresses of its sub-policies in the middle of its own hashing); on a panic all are given back
 RECURSIVE Outcomes(_, _, _, _, _), PutAll(_, _, _)
 PutAll(pl, ps, bs) == IF bs = <<>> THEN pl ELSE PutAll(Put(pl, Head(ps), Head(bs)), Tail(ps), Tail(bs))
 Outcomes(o, u, pl, ok, held) ==
